@@ -40,13 +40,13 @@ def main():
     except ValueError:
         seed = 0
     t0 = time.time()
+    common.use_repo()
     try:
         mod = importlib.import_module("harness.props." + prop_id.lower())
     except ImportError:
         print("unknown property %s" % prop_id)
         traceback.print_exc()
         return 2
-    common.use_repo()
 
     if args.replay:
         payload = json.load(open(args.replay, encoding="utf-8"))
